@@ -366,7 +366,7 @@ def gen_trace(seed: int, tier: str) -> dict:
     S = Streams(seed)
     r = S("config")
     n = r.randint(6, 25) if tier == "quick" else r.randint(10, 60)
-    events, sw = common.gen_history(seed, n_events=n, families=["c18"], always=("c18",), ckpt=0.08, reopen=0.08, restart=0.04,
+    events, sw = common.gen_history(seed, fault_rate=common.fault_arm(seed), n_events=n, families=["c18"], always=("c18",), ckpt=0.08, reopen=0.08, restart=0.04,
                                     observe=0.0, jump=0.12, fork=0.06, warmup=False)
     rs = S("start")
     arm = rs.choice(["default", "default", "nocore", "nocore", "stored", "stored", "corpus"])
